@@ -159,6 +159,12 @@ Deepening round: (1) RemoveUnusedOpsets is no longer frame-only: Opsets.v extend
   falsy defaults of attribute parameters) was no longer hit by the general generator: targeted template (h) = function with
   attribute defaults 0.0 / -0.0 not passed at the call (judge onnxruntime: the reference evaluator does not apply declared
   defaults).  All 13 seeded changes re-evaluated after the round: caught with a concrete replay.
+After /repo 5633eae (numpy() of string tensors = object array): DeduplicateHashedInitializersPass hashes the element
+  POINTERS of string tensors (hashlib.update(object array)), so which equal string initializers meet under one key depends on
+  the allocator (usually none: the duplicates stay).  Semantics are preserved either way (the byte comparison guards the
+  replacement; C05_dedup_preserves holds for any key relation), but the correspondence had to become relational for deduph:
+  the result must equal the model for ONE of three key relations (exact content / strings never share a key / the former
+  NUL-padded view).  proposed_fixes/C05-deduph-string-pointer-hash.diff (+ -demo.py) hashes _tobytes for string tensors.
 Wall time: quick ~60-110 s under load (40 specs x (22 single passes + 5 sequences) + corpus), thorough ~9-12 min (400 specs).
 """
 
@@ -573,7 +579,11 @@ def model_expr(name: str, p, m, conv: Conv, info, before: str, base: int) -> str
         return f"(fst (cse {cZ(p.size_limit)} {before} {base}))"
     if name in ("dedup", "dedup8", "deduph"):
         order = [gref(g) for g in m.graphs()]
-        keyeq = "tensor_hash_eqb" if name == "deduph" else "tensor_eqb"
+        # deduph: since 5633eae numpy() of a string tensor is an OBJECT array and hashlib hashes the element POINTERS: for
+        # string tensors the digest (and so which equal tensors meet under one key) depends on the allocator.  The theorem
+        # holds for ANY key relation; the correspondence accepts the result for one of three key relations (KEYEQ is
+        # instantiated in steps_to_coq): exact content, "strings never share a key", the former NUL-padded view.
+        keyeq = "KEYEQ" if name == "deduph" else "tensor_eqb"
         return f"(dedup_inits {keyeq} {cZ(p.size_limit)} {clist(order)} {before})"
     if name in ("lift", "lift0", "liftall"):
         other = []
@@ -715,6 +725,10 @@ def steps_to_coq(steps: list[Step]) -> str:
         conds.append(c.replace("BEFORE", f"b{k}") if c else "true")
         if st.kind == "model" and st.pass_name == "inline":
             flags.append(f"model_agree_deep 12 {st.base} {st.expr.replace('BEFORE', f'b{k}')} a{k}")
+        elif st.kind == "model" and "KEYEQ" in st.expr:
+            e = st.expr.replace('BEFORE', f'b{k}')
+            keys = ["tensor_eqb", "(fun x y => if Z.eqb (t_dtype x) DT_STRING then false else tensor_eqb x y)", "tensor_hash_eqb"]
+            flags.append("(" + " || ".join(f"(if model_agree {st.base} {e.replace('KEYEQ', kq)} a{k} then true else false)" for kq in keys) + ")")
         elif st.kind == "model":
             flags.append(f"model_agree {st.base} {st.expr.replace('BEFORE', f'b{k}')} a{k}")
         elif st.kind == "frame" and st.pass_name == "rmopset" and getattr(st, "ops_before", None) and getattr(st, "ops_after", None):
